@@ -17,6 +17,7 @@ struct verif_ghost {
     unsigned seq;          /* event counter */
     unsigned module_new_seq;
     int partial;           /* loader: some known section was not consumed to its end (C12.whole) */
+    int unconsumed;        /* loader: an entry loop ended although a complete entry was still left (C10.load.complete) */
     /* execute / verify bookkeeping (C13, C18, C05) */
     const void *verified_module;
     int executed;
